@@ -21,7 +21,7 @@ CHECKS = {
              "configurations, twice and in both orders, and compared with the exact Fraction ratio computed by R: == and int/Fraction type in the "
              "Fraction registry, 1e-26 relative in Decimal, (16+4n) ulp in float. Prefix x spelling x plural strings, root-unit expansions, "
              "conversion laws and compound units are enumerated/sampled. Exhaustive on the pair domain, sampling beyond it.",
-        note="R reads the same definition files (wrong literals in the files are C20's); 29 float-tainted units (fractional power of a scale) are compared with the float tolerance in every registry type. Later additions: agreement of every entry point of one conversion (to/ito/m_as, context name passed along, ndarray, in place, integer ndarray in place) with ureg.convert; generated registries through all load paths.",
+        note="R reads the same definition files (wrong literals in the files are C20's); 29 float-tainted units (fractional power of a scale) are compared with the float tolerance in every registry type. Later additions: agreement of every entry point of one conversion (to/ito/m_as, context name passed along, ndarray, in place, integer ndarray in place) with ureg.convert; generated registries through all load paths. Round 6: conversions not asked to work in place leave their source array alone (also inside contexts, asked twice); the float bound of compound conversions scales with the exponents.",
         design="5/C02"),
     "C03": dict(
         technique="Hypothesis expression trees over quantities evaluated under two unit assignments (metamorphic relation) and against a reference evaluation over exact (value, dimension) pairs; operator-form differential (plain vs reflected vs in-place) with operand snapshots",
@@ -30,7 +30,7 @@ CHECKS = {
              "Fraction registry both evaluations and the reference model must agree exactly (value, dimension, error class, no float contamination); in the "
              "float registry agreement is required within a propagated error bound, away from ties. Reflected and in-place forms (scalars and ndarrays) "
              "must equal the plain form and leave every operand but the in-place target untouched. Sampling only.",
-        note="Leaf units are restricted to rational, positively scaled multiplicative units; ill-conditioned float trees (near-zero divisors, nested powers > 4) are skipped and counted. One known finding (int ** negative power) is excluded by construction in the tree tier and reported by the forms tier. Later additions: comparisons across offset units (offsetcmp), exact Fraction magnitudes in the float registry, auto_reduce_dimensions configuration, bare-number ordering/equality.",
+        note="Leaf units are restricted to rational, positively scaled multiplicative units; ill-conditioned float trees (near-zero divisors, nested powers > 4) are skipped and counted. One known finding (int ** negative power) is excluded by construction in the tree tier and reported by the forms tier. Later additions: comparisons across offset units (offsetcmp), exact Fraction magnitudes in the float registry, auto_reduce_dimensions configuration, bare-number ordering/equality. Round 6: in-place forms that NumPy refuses (integer target, wider operand) leave the target denoting what it denoted (judged physically).",
         design="5/C03"),
     "C04": dict(
         technique="bounded-exhaustive enumeration of unit containers over a 3-letter alphabet (all ordered pairs, sampled triples) in 3 exponent types x 3 layers against a dict model of the free abelian group; Hypothesis containers over real unit names; Hypothesis integer matrices for pi-theorem with own Fraction rank/null-space oracle",
@@ -57,7 +57,7 @@ CHECKS = {
              "from nonmult.rst) or OffsetUnitCalculusError. ndarray in-place forms must equal the functional forms and leave the other operand untouched; "
              "compound units containing an offset unit never convert to another dimension. Log units are checked against x_lin = scale*base**(x/factor), "
              "inverses, scalar vs in-place array conversion, and well-formedness of arithmetic results. Sampling over a small finite unit set x random magnitudes.",
-        note="Arithmetic on logarithmic units is documented only through conversions: validity predicate, one known finding (delta_<log unit> undefined). Later additions: right operands with a dimensionless scale in their units, parse_units(text, as_delta=...) relations for compound and powered offset strings.",
+        note="Arithmetic on logarithmic units is documented only through conversions: validity predicate, one known finding (delta_<log unit> undefined). Later additions: right operands with a dimensionless scale in their units, parse_units(text, as_delta=...) relations for compound and powered offset strings. Round 6: sub-check redef - an offset unit whose definition is replaced by a redefining context or a second define() follows the affine map in force (absolute, delta, difference, offset + delta, alias) in Fraction/float/Decimal registries.",
         design="5/C06"),
     "C07": dict(
         technique="bounded-exhaustive enumeration of expression trees x spelling variants with a Python-operator evaluation of the tree as oracle; Hypothesis larger trees in float/Decimal/Fraction registries; mutation-based malformed inputs; audit-hook monitored parsing of hostile and random strings; coverage-guided atheris/libFuzzer campaigns (thorough tier) with an audit-hook, a Python-grammar differential and a structural oracle inside the target",
@@ -66,7 +66,7 @@ CHECKS = {
              "whitespace) and must parse to the value/type/error class of the tree evaluated with Python operators. Word forms, larger random trees in all three "
              "numeric configurations, every +/- / a(b) uncertainty notation with signs and exponents, malformed strings (must raise) and a sys.addaudithook "
              "monitor over hostile/random strings (no exec/compile/import/open/os/socket events, no foreign objects returned) complete the check.",
-        note="The no-execution clause is a universally quantified negative: the audit-hook oracle is precise but the input search is evidence, not proof. CPython's own attempt to open a file literally named '<string>' when the tokenizer raises SyntaxError is allowed. Later additions: blank-free juxtaposition, digit-group underscores, operators dangling before a closing parenthesis, results of a parse mutated in place before the next parse (alias).",
+        note="The no-execution clause is a universally quantified negative: the audit-hook oracle is precise but the input search is evidence, not proof. CPython's own attempt to open a file literally named '<string>' when the tokenizer raises SyntaxError is allowed. Later additions: blank-free juxtaposition, digit-group underscores, operators dangling before a closing parenthesis, results of a parse mutated in place before the next parse (alias). Round 6: the words inf/infinity/nan are numbers of the registry's own number type (float, Decimal).",
         design="5/C07"),
     "C08": dict(
         technique="bounded-exhaustive enumeration of all prefix x spelling x plural strings (1.3e5) against the decomposition rule computed by an independent definition reader; Hypothesis mutated/random strings; op-sequence (model-based) lookup histories compared with fresh registries; cross-process determinism probe",
@@ -84,7 +84,7 @@ CHECKS = {
              "D/C/P text must parse_units back to an equal unit (symbols only when R reads them back uniquely). Compound units with integer/fractional "
              "exponents in all three numeric configurations, quantities with magnitude specs, str(q)/Quantity(str) round trips, the '#' modifier, "
              "default_format sequences on held objects and sort functions are sampled. Formatting must never raise or alter its argument.",
-        note="Babel-localised output is outside the statement. One known finding: '%' / per-mille followed by a superscript in '~P'. Later additions: quantity default formats incl. '#', exponents/magnitudes using every digit, LaTeX magnitude oracle, formatting inside a context that redefines a unit, symbols taken from the independent definition reader.",
+        note="Babel-localised output is outside the statement. One known finding: '%' / per-mille followed by a superscript in '~P'. Later additions: quantity default formats incl. '#', exponents/magnitudes using every digit, LaTeX magnitude oracle, formatting inside a context that redefines a unit, symbols taken from the independent definition reader. Round 6: integral exponents of the registry's own number type (Decimal('10'), Fraction(20)).",
         design="5/C09"),
     "C10": dict(
         technique="complete comparison of the bundled definition files with an independent reader; Hypothesis model-first generated definition files rendered in permuted/variant layouts and loaded through five paths x three numeric types (model oracle + differential between paths); fault injection from a catalogue of ill-formed statements",
@@ -94,7 +94,7 @@ CHECKS = {
              "rendered with permuted unit/prefix lines, spacing, comments and literal spellings and loaded from a list of lines, a file, define() calls, a file with "
              "@import and a cold+warm disk cache; every answer must equal the model and agree across paths. (c) One ill-formed statement out of 25 kinds is "
              "inserted at a random place: loading or the first use of the name must raise.",
-        note="Generated contexts are exercised by C11/C12. Units added via define() are not asked for compatible-unit listings (known finding of C13). Later additions: load paths cache_lines / cache_import with decoy definition sets, @defaults, @alias directives, case-insensitive table, power rules in @system, cross-process cache check (xcache).",
+        note="Generated contexts are exercised by C11/C12. Units added via define() are not asked for compatible-unit listings (known finding of C13). Later additions: load paths cache_lines / cache_import with decoy definition sets, @defaults, @alias directives, case-insensitive table, power rules in @system, cross-process cache check (xcache). Round 6: faults also through load_definitions on a living registry; references to undefined groups/units; refused @system blocks and refused redefinitions (on_redefinition='raise') leave nothing behind; each fault x path x number type enumerated once; cross-process cache script records every probe separately and covers registries built from lines.",
         design="5/C10"),
     "C11": dict(
         technique="Hypothesis over bundled and randomly generated contexts (rule graphs with monomial equations, parameters, overlapping rules, redefinitions) x activation forms x stacks; reference oracle = own BFS over dimension vectors (all shortest chains, recency precedence) with exact evaluation of the rule equations using factors from an independent definition reader",
@@ -103,7 +103,7 @@ CHECKS = {
              "contexts passed to to()/ito(), decorator, nested blocks, alias, Context object). The result must equal the exact value of some shortest chain found "
              "by the oracle's BFS with the most recently enabled rule per edge, unreachable targets must raise DimensionalityError, same-dimension conversions are "
              "unchanged, no context may stay active. Redefinitions must apply to the unit and its dependants exactly while active (also nested and with keywords).",
-        note="Parameter inheritance with several enclosing contexts that disagree is under-specified by the statement: skipped and counted. Later additions: derived dimension names in rules; contexts built with from_lines without a to-base function and with Context() + add_transformation; nested contexts that both declare parameters (each rule uses its own context's value); the bundled sp/boltzmann/energy contexts against c, h, k written in the check.",
+        note="Parameter inheritance with several enclosing contexts that disagree is under-specified by the statement: skipped and counted. Later additions: derived dimension names in rules; contexts built with from_lines without a to-base function and with Context() + add_transformation; nested contexts that both declare parameters (each rule uses its own context's value); the bundled sp/boltzmann/energy contexts against c, h, k written in the check. Round 6: every bundled-context conversion is repeated on an ndarray magnitude (element-wise equal to the scalar conversions, source untouched).",
         design="5/C11"),
     "C12": dict(
         technique="model-based (stateful) testing: bounded-exhaustive breadth-first enumeration of operation sequences over a 27-letter alphabet on a fresh tiny registry, plus Hypothesis random sequences, each interpreted next to a reference stack model with a probe battery after every step; fault injection through four kinds of invalid activation",
@@ -113,7 +113,7 @@ CHECKS = {
              "get_root_units, to_root_units, get_base_units, prefixed units, compatible-unit listings, number of active contexts) must equal what the model's stack "
              "implies; a failing activation must raise and change nothing; after unwinding, the battery must equal the one recorded before the first activation. "
              "Random sequences up to 25 operations and a shared-Context check (two registries, re-entry with other parameters) complete it.",
-        note="The former known finding (base-units cache across context stacks) is repaired in /repo (1d885d8) and checked like everything else. Units defined while a redefining context is active are C13's clause. Later additions: per-call contexts (to/ito with a context name) in the operation alphabet; on_redefinition='raise' policy observed after every step; activation with an unhashable parameter value (refused or accepted-and-disabled: nothing left behind).",
+        note="The former known finding (base-units cache across context stacks) is repaired in /repo (1d885d8) and checked like everything else. Units defined while a redefining context is active are C13's clause. Later additions: per-call contexts (to/ito with a context name) in the operation alphabet; on_redefinition='raise' policy observed after every step; activation with an unhashable parameter value (refused or accepted-and-disabled: nothing left behind). Round 6: cold probes (spare units asked once, right after a failed activation: the battery itself warms the caches).",
         design="5/C12"),
     "C13": dict(
         technique="model-based (stateful) testing with Hypothesis operation sequences: every answer of a long-lived registry is compared with the answer of a twin built fresh from the declarative state (differential against a fresh registry), each question put to an untouched copy of the twin; registry-isolation differential",
@@ -123,7 +123,7 @@ CHECKS = {
              "None, group edits, building and using a second registry). After each state change a twin is built from the definition text plus the logged "
              "definitions and settings; subject and twin must agree on every answer, and a brand-new registry replays the final state. A second tier does the "
              "same on the bundled registry (contexts and systems), a third checks that nothing done to a second registry changes the first.",
-        note="Three known findings are excluded by construction/narrow class: units from define() missing in compatible-unit listings, definitions made inside a redefining context, double prefixes (the base-units cache across context stacks is repaired in /repo, 1d885d8). Deep copy is used to hand every question an untouched twin. Later additions: motifs (enter/leave redefining context, ask-define-ask, failing activation then retry, default_system switches, API context with keyword parameter, to_compact around a late prefix, get_name/get_symbol queries, defined names that also read as prefix + unit).",
+        note="Three known findings are excluded by construction/narrow class: units from define() missing in compatible-unit listings, definitions made inside a redefining context, double prefixes (the base-units cache across context stacks is repaired in /repo, 1d885d8). Deep copy is used to hand every question an untouched twin. Later additions: motifs (enter/leave redefining context, ask-define-ask, failing activation then retry, default_system switches, API context with keyword parameter, to_compact around a late prefix, get_name/get_symbol queries, defined names that also read as prefix + unit). Round 6: sub-check redefine (questions and replaced definitions vs a registry built from the final text; found the stale-cache defect repaired in 7c97a2d); xcache with line-built registries sharing a cache folder.",
         design="5/C13"),
     "C14": dict(
         technique="complete enumeration of every unit x every declared system against allowed-unit sets and exact factors from an independent definition reader; Hypothesis compound quantities, generated systems (both rule forms, power-of-root units) and model-based group/system edit histories checked against an own closure model",
@@ -133,7 +133,7 @@ CHECKS = {
              "sys.<system>.<name> attribute resolution and dir(), generated systems with 'new' and 'new:old' rules (incl. liter/hectare/gallon/barn as new "
              "base units) are sampled. Group graphs with 'using' chains undergo random add/remove-units/groups histories incl. shortcut-then-cut shapes and "
              "system group edits; members, system members and group/system-restricted compatible units are compared with an own transitive closure after every edit; cyclic 'using' must be refused.",
-        note="Compound quantities under square-root based systems (Planck, atomic) with total exponent > 2 are skipped: intermediate float products underflow. A group using itself is accepted by pint and loops forever (not in the statement; never generated). Later additions: default system asked right after an explicit-system query; partial read views in group histories.",
+        note="Compound quantities under square-root based systems (Planck, atomic) with total exponent > 2 are skipped: intermediate float products underflow. A group using itself is accepted by pint and loops forever (not in the statement; never generated). Later additions: default system asked right after an explicit-system query; partial read views in group histories. Round 6: plural and differently cased attributes of ureg.sys.<system> (case-insensitive registry); refused @system blocks are unknown afterwards and the corrected block can be defined.",
         design="5/C14"),
     "C15": dict(
         technique="Hypothesis quantities over the whole registry x every rewriting helper and its in-place twin, with value/dimension oracles from an independent definition reader (exact in the Fraction registry), an R-based proportionality predicate for to_reduced_units and prefix arithmetic for to_compact; registries with auto_reduce_dimensions / autoconvert_to_preferred",
@@ -153,7 +153,7 @@ CHECKS = {
              "functions are compared in their own unit only; order/equality-sensitive ones use bit/byte/KiB so that re-expression is exact. Every same-dimension "
              "slot is also filled with another dimension (must raise DimensionalityError); offset-unit arrays are run through 16 operations in both registry "
              "modes and operand orders and compared with the operator form; inputs must be unchanged after non in-place calls; names without a recipe are listed in evidence.",
-        note="23 known-finding classes with two root causes: (1) mod/remainder/fmod/floor_divide do not convert their operands (pinned by the existing test-suite), (2) the ufunc implementations bypass the offset-unit rules. Functions without a recipe are reported, not claimed. Later additions: optional unit arguments given late (clip/nan_to_num/max/min/sum initial), reductions with axis+where, quantity exponents; recipes referenced by name; histories of ndarray-method calls and in-place state changes compared with fresh quantities (sub-check methods); values of the pool units written in the check (not read from the definition files), more angle units.",
+        note="23 known-finding classes with two root causes: (1) mod/remainder/fmod/floor_divide do not convert their operands (pinned by the existing test-suite), (2) the ufunc implementations bypass the offset-unit rules. Functions without a recipe are reported, not claimed. Later additions: optional unit arguments given late (clip/nan_to_num/max/min/sum initial), reductions with axis+where, quantity exponents; recipes referenced by name; histories of ndarray-method calls and in-place state changes compared with fresh quantities (sub-check methods); values of the pool units written in the check (not read from the definition files), more angle units. Round 6: a quarter of the calls run in an auto_reduce_dimensions=True registry with operand units that repeat a dimension.",
         design="5/C16"),
     "C17": dict(
         technique="Hypothesis-generated signatures, unit specifications, call shapes and arguments for ureg.wraps / ureg.check, checked against an independent re-implementation of the documented contract with exact factors from an independent definition reader; enumeration of decoration-time errors",
@@ -193,7 +193,7 @@ CHECKS = {
              "troy/apothecary, pressure/energy/power units, CGS, information, temperature probe points, CODATA 2022 values) is converted to an SI base-unit "
              "expression and compared with the tabulated value: == in the Fraction registry for exact entries, 1e-45 for pi-dependent ones, 10x CODATA "
              "uncertainty for derived constants, ulp tolerance in float; names, symbols and spellings are checked too. The table is finite and enumerated completely.",
-        note="The table was written offline from memory of the standards and cross-checked by consistency relations; units without an international definition are left out. Later additions: prefix symbols on bar/bit/byte before and after first use, explicit-system queries interleaved with default-system ones (SI base units required); prefix symbol + unit symbol of standard units; defined names reading as prefix + unit; derived dimension names and coherence of the SI special-name units (oracle/dimtable.py).",
+        note="The table was written offline from memory of the standards and cross-checked by consistency relations; units without an international definition are left out. Later additions: prefix symbols on bar/bit/byte before and after first use, explicit-system queries interleaved with default-system ones (SI base units required); prefix symbol + unit symbol of standard units; defined names reading as prefix + unit; derived dimension names and coherence of the SI special-name units (oracle/dimtable.py). Round 6: standard values after refused redefinitions (on_redefinition='raise').",
         design="5/C20"),
 }
 
